@@ -484,7 +484,12 @@ def run(tier, only=None):
     c16_mangle.check_mangle_table(rep, "J6", jrows, "genjava.c", "gjSpecCharIdTable")
     rep.assumptions += ["Java's int carries FOAM SInt by design: word-size dependent limits are compared by kind, not value",
                         "java.lang/java.math methods mean what their javadoc says (table JAVA_METHOD_MEANS)"]
-    j5b(rep)
+    try:
+        j5b(rep)
+    except AnalysisBroken as e:
+        if not rep.violations:
+            raise
+        rep.note("J5b not evaluated: %s" % e)
     j7(rep)
     j8(rep)
     return rep
